@@ -1185,7 +1185,9 @@ class MinLeakageIASolver(IterativeIASolverBaseClass):
         for k in range(self.K):
             Qk = self.calc_Q(k)
             [V, _] = leig(Qk, self.Ns[k])
-            Uk[k] = V
+            # Normalize the filter (the Ns[k] eigenvectors together have a
+            # Frobenius norm equal to sqrt(Ns[k]))
+            Uk[k] = V / np.linalg.norm(V, 'fro')
         return Uk
 
     def _calc_Uk_all_k_rev(self) -> np.ndarray:
@@ -1202,7 +1204,8 @@ class MinLeakageIASolver(IterativeIASolverBaseClass):
         for k in range(self.K):
             Qk_rev = self.calc_Q_rev(k)
             [V, _] = leig(Qk_rev, self.Ns[k])
-            Uk_rev[k] = V
+            # Normalize the precoder so that its power is given only by P
+            Uk_rev[k] = V / np.linalg.norm(V, 'fro')
         return Uk_rev
 
     def _updateF(self) -> None:
